@@ -1,3 +1,4 @@
+import Secp.Proofs.WrapperTies
 import Secp.Proofs.Lawful
 import Secp.Proofs.Reduce
 import Secp.Proofs.AddSub
